@@ -446,3 +446,72 @@ M('tc_no_compaction_after_many', 'C20', C,
 M('tc_elements_once', 'C20', C,
   """        repeaters = itertools.starmap(itertools.repeat, self.iteritems())""",
   """        repeaters = itertools.starmap(itertools.repeat, ((k, min(c, 4)) for k, c in self.iteritems()))""")
+
+IO = 'boltons/ioutils.py'
+# ---------------------------------------------------------------- C18
+M('bytes_rollover_loses_pos', 'C18', IO,
+  """            tmp = TemporaryFile(dir=self._dir)
+            pos = self.buffer.tell()
+            tmp.write(self.buffer.getvalue())
+            tmp.seek(pos)""",
+  """            tmp = TemporaryFile(dir=self._dir)
+            pos = self.buffer.tell()
+            tmp.write(self.buffer.getvalue())
+            tmp.seek(min(pos, 3))""")
+M('string_rollover_truncates', 'C18', IO,
+  """            pos = self.buffer.tell()
+            tmp.write(self.buffer.getvalue())
+            tmp.seek(pos)
+            self.buffer.close()
+            self._buffer = tmp
+
+    def tell(self):
+        \"\"\"Return the codepoint position\"\"\"""",
+  """            pos = self.buffer.tell()
+            tmp.write(self.buffer.getvalue()[:40])
+            tmp.seek(pos)
+            self.buffer.close()
+            self._buffer = tmp
+
+    def tell(self):
+        \"\"\"Return the codepoint position\"\"\"""")
+M('string_readline_tell', 'C18', IO,
+  """        ret = self.buffer.readline(length).decode('utf-8')
+        self._tell = self.tell() + len(ret)""",
+  """        ret = self.buffer.readline(length).decode('utf-8')
+        self._tell = self.tell() + len(ret.encode('utf-8'))""")
+M('string_read_counts_bytes', 'C18', IO,
+  """        ret = self.buffer.reader.read(n, n)
+        self._tell = self.tell() + len(ret)""",
+  """        ret = self.buffer.reader.read(n, n if n < 4 else n - 1)
+        self._tell = self.tell() + len(ret)""")
+M('bytes_len_rolled_stale', 'C18', IO,
+  """        if self._rolled:
+            self.seek(0)
+            val = os.fstat(self.fileno()).st_size""",
+  """        if self._rolled:
+            val = os.fstat(self.fileno()).st_size""")
+M('mfr_index_on_exact', 'C18', IO,
+  """            if got < amt:
+                self._index += 1""",
+  """            if got <= amt and got:
+                self._index += 1""")
+M('mfr_skip_empty', 'C18', IO,
+  """            if got < amt:
+                self._index += 1
+            amt -= got""",
+  """            if got < amt:
+                self._index += 1
+                if not got:
+                    break
+            amt -= got""")
+M('bytes_readlines_sizehint', 'C18', IO,
+  """        return self.buffer.readlines(sizehint)""",
+  """        return self.buffer.readlines(sizehint or 4)""")
+M('getvalue_pos', 'C18', IO,
+  """        val = self.read()
+        self.seek(pos)
+        return val""",
+  """        val = self.read()
+        self.seek(pos if pos < 7 else pos - 1)
+        return val""")
